@@ -49,6 +49,9 @@ func init() {
 			case 1:
 				return c10Cycle(c)
 			case 2:
+				if c.n%8 == 2 {
+					return c10WhileStopping(c)
+				}
 				return c10Child(c)
 			default:
 				return c10Mixed(c)
@@ -609,5 +612,73 @@ func c10Child(c *caseCtx) (res caseResult) {
 		res.Sample = map[string]any{"scenario": res.Desc, "producer_runs": produced, "duplicate_events": dups}
 	}
 	e.Poison(parent)
+	return res
+}
+
+
+// c10WhileStopping: while an actor is inside its Stopped handler the two views of
+// "is the id taken" must agree: GetPID finds it exactly if a spawn of the id is
+// refused. (Whether an implementation unregisters before or after Stopped is its
+// business; that the registry and GetPID tell the same story is not.)
+type c10Slow struct {
+	entered chan struct{}
+	release chan struct{}
+	seenInside *actor.PID
+	ctxSeen    *actor.PID
+}
+
+func (a *c10Slow) Receive(c *actor.Context) {
+	if _, ok := c.Message().(actor.Stopped); ok {
+		a.ctxSeen = c.GetPID(c.PID().ID)
+		close(a.entered)
+		<-a.release
+	}
+}
+
+func c10WhileStopping(c *caseCtx) (res caseResult) {
+	wd := watchdog(c.tier)
+	e, mon, _, err := newMonitoredEngine()
+	if err != nil {
+		res.inconclusive("engine: %v", err)
+		return
+	}
+	slow := &c10Slow{entered: make(chan struct{}), release: make(chan struct{})}
+	withChild := c.n%16 == 2
+	var pid *actor.PID
+	if withChild {
+		// the slow actor is a child: its parent is shut down, which takes the child down first
+		parent := e.SpawnFunc(func(c *actor.Context) {
+			if _, ok := c.Message().(actor.Started); ok {
+				c.SpawnChild(func() actor.Receiver { return slow }, "kid", actor.WithID("s"))
+			}
+		}, "wsp", actor.WithID("p"))
+		pid = actor.NewPID("local", "wsp/p/kid/s")
+		e.Poison(parent)
+	} else {
+		pid = e.Spawn(func() actor.Receiver { return slow }, "ws", actor.WithID("s"))
+		e.Poison(pid)
+	}
+	select {
+	case <-slow.entered:
+	case <-time.After(wd):
+		res.inconclusive("the actor did not reach its Stopped handler")
+		return
+	}
+	kind, id := idKind(pid.ID)
+	found := e.Registry.GetPID(kind, id)
+	var produced int32
+	e.Spawn(func() actor.Receiver { atomic.AddInt32(&produced, 1); return &nopActor{} }, kind, actor.WithID(id))
+	mon.flush(e, wd)
+	refused := mon.count(func(x any) bool { ev, ok := x.(actor.ActorDuplicateIdEvent); return ok && ev.PID.ID == pid.ID }) > 0
+	close(slow.release)
+	res.Desc = fmt.Sprintf("while-stopping child=%v: GetPID found=%v, spawn refused=%v, producer ran=%d", withChild, found != nil, refused, atomic.LoadInt32(&produced))
+	if (found != nil) != refused || refused == (atomic.LoadInt32(&produced) == 1) {
+		res.violate("while the actor %s handles Stopped, Registry.GetPID says taken=%v (Context.GetPID inside the handler: %v) but a spawn of the id was refused=%v (producer ran %d times): GetPID must return the PID exactly while the actor is registered", pid.ID, found != nil, slow.ctxSeen != nil, refused, atomic.LoadInt32(&produced))
+	} else if (slow.ctxSeen != nil) != (found != nil) {
+		res.violate("Context.GetPID (%v) and Registry.GetPID (%v) disagree about the same id at the same time", slow.ctxSeen != nil, found != nil)
+	}
+	res.Sig = sigHash("whilestopping", withChild)
+	res.Sample = map[string]any{"scenario": res.Desc}
+	e.Poison(pid)
 	return res
 }
